@@ -229,6 +229,10 @@ func (u *upstream) getClient(addr string) (*client, error) {
 	}
 	c, err := u.createClient(addr)
 	call.res, call.err = c, err
+	// The call is only used to merge the concurrent creations, forget it once
+	// done. Otherwise the result (a client which may have exited later, or a
+	// dial error) would be returned for the address forever.
+	u.createClientCalls.Delete(addr)
 	close(call.done)
 	return c, err
 }
